@@ -43,6 +43,9 @@ Definition enc_event (e : event) : obs :=
   | EErr off => OList [OTag "errno"; onat off]
   | EResolve id => OList [OTag "ok"; onat id]
   | EFail id => OList [OTag "fail"; onat id]
+  | ECancel id => OList [OTag "cancel"; onat id]
+  | ECancelNo id => OList [OTag "cancelno"; onat id]
+  | ESkip id => OList [OTag "skip"; onat id]
   | EReady b => OList [OTag "ready"; OBool b]
   | EClose => OTag "close"
   | EConnect => OTag "connect"
@@ -61,6 +64,7 @@ Fixpoint settled (t : list event) : list nat :=   (* t oldest first *)
   | [] => []
   | EResolve id :: t' => id :: settled t'
   | EFail id :: t' => id :: settled t'
+  | ECancel id :: t' => id :: settled t'
   | _ :: t' => settled t'
   end.
 
@@ -147,6 +151,9 @@ Definition dec_event (o : obs) : option event :=
           else if String.eqb s "errno" then Some (EErr (Z.to_nat a))
           else if String.eqb s "ok" then Some (EResolve (Z.to_nat a))
           else if String.eqb s "fail" then Some (EFail (Z.to_nat a))
+          else if String.eqb s "cancel" then Some (ECancel (Z.to_nat a))
+          else if String.eqb s "cancelno" then Some (ECancelNo (Z.to_nat a))
+          else if String.eqb s "skip" then Some (ESkip (Z.to_nat a))
           else None
       | [OBool b] => if String.eqb s "ready" then Some (EReady b) else None
       | [OInt sz; OInt i; OInt dn; OBool lis; OInt fp; OList sh] =>
